@@ -137,14 +137,6 @@ def walk(root, path=''):
     return out
 
 
-def shared_objects(a, b):
-    """[(path in a, path in b, depth in b, type)] of the mutable objects reachable from both, shallowest (in b) first"""
-    wa = {id(v): p for p, _, v in walk(a)}
-    out = [(wa[id(v)], p, d, type(v).__name__) for p, d, v in walk(b) if id(v) in wa]
-    out.sort(key=lambda t: (t[2], t[1]))
-    return out
-
-
 # --------------------------------------------------------------------------- value snapshots
 def xcanon(x):
     if isinstance(x, _ObservableValue):
@@ -749,7 +741,9 @@ def judge_pair(fnd, hist, key, op, a, b, allowed, top_only, gen, rep, via=None, 
     def explain(what, side):
         """depth of the shallowest shared object on the path of the mutated object (None: nothing shared there)"""
         mp = what.split(':')[0][1:]
-        ds = [(d, p) for p, d in shared_at[side].items() if mp.startswith(p) or p.startswith(mp)]
+        ds = [(d, p) for p, d in shared_at[side].items()
+              if mp == p or mp.startswith(p + '.') or mp.startswith(p + '[')              # the object or an ancestor
+              or (what.endswith('node = <new element>') and p == mp + '._property_instance_data')]
         return min(ds) if ds else None
     for side, (src, other) in (('b', (b, a)), ('a', (a, b)))[:2 if both else 1]:
         watch = Watch()
@@ -775,7 +769,7 @@ def share_kind(op, depth, path):
     """what kind of object the two sides have in common (part of the finding signature)"""
     if '._property_instance_data' in path:
         return 'the storage of the observable node attribute'
-    if op == 'update_from_other_container':
+    if op in ('update_from_other_container', 'entity.update'):
         if depth <= 1:
             return 'a member object handed over by reference'
         return 'nested objects below the copied member values'
@@ -838,8 +832,10 @@ def stream_mdib():
             judge_pair(fnd, hist, X.class_key(type(part)), OP_OF[via], orig, part, set(), False, gen,
                        {'entity': entity.handle, 'container': label(part), 'mdib_file': 'tests/mdib_tns.xml'}, via=pvia,
                        both=False)
-    OP_OF = {'entities.by_handle': 'entity getter', 'entity.update': 'update_from_other_container',
-             'entity.update [state refreshed with states.descriptor_handle.get_one]': 'update_from_other_container'}
+    # 'entity.update' is a signature of its own: the known one-level copy of update_from_other_container does not
+    # excuse an entity that shares objects with the mdib (Entity.update can take its values from a private copy)
+    OP_OF = {'entities.by_handle': 'entity getter', 'entity.update': 'entity.update',
+             'entity.update [state refreshed with states.descriptor_handle.get_one]': 'entity.update'}
     handles = [d.Handle for d in mdib.descriptions.objects]
     for h in handles:
         e = mdib.entities.by_handle(h)
